@@ -165,7 +165,24 @@ def gen_burst(rng, cfg, nss, n=None):
     burst = {'side': side, 'msgs': msgs}
     if cfg['mode'] == 'asyncio' and rng.random() < 0.45:
         concurrent(burst, rng)
+    elif can_call and len(msgs) >= 2 and rng.random() < 0.3:
+        overlap(msgs, rng)
     return burst
+
+
+def overlap(msgs, rng):
+    """one message becomes a call() that gives up waiting; the 1-3 messages after it are sent (with callbacks)
+    while it still waits; their acknowledgements — and the late one of the call — arrive afterwards"""
+    i = rng.randrange(len(msgs) - 1)
+    msgs[i].update(kind='call', cb=True, gives_up=True)
+    if msgs[i]['ev'] == 'message':
+        msgs[i]['ev'] = gen_event(rng)
+    for j in range(i + 1, min(len(msgs), i + 1 + rng.randint(1, 3))):
+        if msgs[j]['kind'] == 'call':
+            msgs[j]['kind'] = 'emit'
+        msgs[j]['while_waiting'] = True
+        if rng.random() < 0.8:
+            msgs[j]['cb'] = True
 
 
 def concurrent(burst, rng=None, gaps=None, exec_lifo=False):
@@ -175,6 +192,8 @@ def concurrent(burst, rng=None, gaps=None, exec_lifo=False):
     for m in burst['msgs']:
         if m['kind'] == 'call':
             m['kind'] = 'emit'
+        m.pop('gives_up', None)
+        m.pop('while_waiting', None)
     burst['deliver'] = 'tasks'
     if rng is not None:
         gaps = [rng.choice([0, 0, 0, 0, 1, 1, 2, 3, 7]) for _ in range(rng.randint(1, 12))]
@@ -252,6 +271,78 @@ class Session:
     def close(self):
         self.w.close()
 
+    def call_giving_up(self, side, m, data, meanwhile):
+        """call() by `side` that waits in vain: the wait primitive (eio.create_event()) is the harness's; while the
+        caller waits nothing moves on the link, `meanwhile()` runs (the application's other sends), then the wait
+        ends the way an expired timeout ends it.  -> ('ok', value) | ('exc', class)"""
+        w = self.w
+        if side == 'client':
+            fn, kw, eio = w.client.call, dict(namespace=m['ns']), w.ceio
+        else:
+            fn, kw, eio = w.sw.sio.call, dict(to=w.sids[m['ns']], namespace=m['ns']), w.sw.eio
+        state = {'waiting': False, 'ran': False}
+
+        def run_meanwhile():
+            if not state['ran']:
+                state['ran'] = True
+                meanwhile()
+
+        class GivesUp:
+            def __init__(self):
+                self.flag = False
+
+            def set(self):
+                self.flag = True
+
+            def clear(self):
+                self.flag = False
+
+            def is_set(self):
+                return self.flag
+
+            def wait(self, timeout=None):
+                state['waiting'] = True
+                if not w.is_async:
+                    run_meanwhile()
+                    return self.flag
+
+                async def wt():
+                    await release
+                return wt()
+
+        orig = eio.create_event
+        eio.create_event = lambda *a, **k: GivesUp()
+        try:
+            if not w.is_async:
+                res = w._run(fn, m['ev'], data, timeout=0, **kw)
+            else:
+                import asyncio
+                loop = w.loop
+                release = loop.create_future()
+                task = loop.create_task(fn(m['ev'], data, timeout=3600, **kw))
+                for _ in range(60):
+                    if task.done() or state['waiting']:
+                        break
+                    loop.run_until_complete(asyncio.sleep(0))
+                loop.run_until_complete(asyncio.sleep(0))
+                if state['waiting'] and not task.done():
+                    run_meanwhile()
+                    release.set_exception(asyncio.TimeoutError())
+                if not task.done() and not state['waiting']:
+                    task.cancel()
+                try:
+                    res = ('ok', loop.run_until_complete(task))
+                except Exception as ex:   # noqa
+                    res = ('exc', type(ex).__name__)
+                except BaseException as ex:   # noqa  (cancelled: the call never reached its wait)
+                    res = ('exc', type(ex).__name__)
+                if not release.done():
+                    release.cancel()
+        finally:
+            eio.create_event = orig
+        run_meanwhile()              # the messages are sent in any case
+        return res
+
     def run(self, burst):
         """-> observation dict"""
         w = self.w
@@ -264,14 +355,18 @@ class Session:
         held = []                # the application's own objects: (payload passed, value the handler returns)
         prev = [None, None]
         kinds = []               # what the receiving handler of each message really is (first registration wins)
-        for m in burst['msgs']:
+        msgs = burst['msgs']
+
+        def issue(i):
+            """sends message i; -> index of the next message to send"""
+            m = msgs[i]
             kinds.append(w.handler(peer, m['ns'], m['ev'], coro=m['coro']))
             # m['data'] / m['ret'] are never handed to the library: they are the deep copies the
             # oracle judges against.  The application's object is a separate copy — or, for
             # `same_data` / `same_ret`, the very object used for the previous message.
             data = prev[0] if m.get('same_data') and held else C.unjsonable(C.jsonable(m['data']))
             ret = prev[1] if m.get('same_ret') and held else C.unjsonable(C.jsonable(m['ret']))
-            prev = [data, ret]
+            prev[:] = [data, ret]
             held.append((data, ret))
             w.rets[peer].append(ret)
             mid = None
@@ -279,16 +374,30 @@ class Session:
             if m['cb']:
                 c = self.ids[side]
                 mid = c[m['ns']] = c.get(m['ns'], 0) + 1
-            if m['kind'] == 'call':
-                res = w.call(side, m['ev'], data, m['ns'])
+            entry = {'id': mid, 'tok': tok, 'res': None}
+            sent.append(entry)
+            nxt = i + 1
+            if m['kind'] == 'call' and m.get('gives_up'):
+                # a call() whose answer does not come in time: while it waits the application sends the following
+                # messages (marked `while_waiting`) to the same peer, then the call gives up; the traffic moves after
+                while nxt < len(msgs) and msgs[nxt].get('while_waiting') and msgs[nxt]['kind'] != 'call':
+                    nxt += 1
+                inner = list(range(i + 1, nxt))
+                entry['res'] = self.call_giving_up(side, m, data, lambda: [issue(j) for j in inner])
+            elif m['kind'] == 'call':
+                entry['res'] = w.call(side, m['ev'], data, m['ns'])
             else:
                 cb = None
                 if m['cb']:
                     self.ntok += 1
-                    tok = 'k%d' % self.ntok
-                    cb = w.callback(side, tok, coro=m['coro'])
-                res = w.emit(side, m['ev'], data, m['ns'], cb=cb, use_send=(m['kind'] == 'send'))
-            sent.append({'id': mid, 'tok': tok, 'res': res})
+                    entry['tok'] = 'k%d' % self.ntok
+                    cb = w.callback(side, entry['tok'], coro=m['coro'])
+                entry['res'] = w.emit(side, m['ev'], data, m['ns'], cb=cb, use_send=(m['kind'] == 'send'))
+            return nxt
+
+        i = 0
+        while i < len(msgs):
+            i = issue(i)
         conc = None
         if burst.get('deliver') == 'tasks':
             conc = w.pump_concurrent(burst.get('gaps') or [0], burst.get('exec_lifo', False))
@@ -375,7 +484,11 @@ def oracle(burst, obs):
             if not C.same(g[1], x[1]):
                 fails.append('callback %s received %r, handler returned %r' % (g[0], g[1], x[1]))
     for i, (m, s) in enumerate(zip(msgs, obs['sent'])):
-        if m['kind'] == 'call':
+        if m['kind'] == 'call' and m.get('gives_up'):
+            if tuple(s['res']) != ('exc', 'TimeoutError'):
+                fails.append('message %d: the call() whose wait expired before anything was answered ended with %r'
+                             % (i, s['res']))
+        elif m['kind'] == 'call':
             if s['res'][0] != 'ok':
                 fails.append('message %d: call() ended with %r' % (i, s['res']))
             elif not C.same(s['res'][1], normalise(m['ret'])):
@@ -535,6 +648,8 @@ def correspond(cfg, burst, obs, mv):
                     want = mv['calls'][ci]
                     ci += 1
                     got = s['res'][1] if s['res'][0] == 'ok' else s['res']
+                    if m.get('gives_up'):
+                        continue        # gave up before the acknowledgement came (judged by the oracle)
                     if not C.same(got, want):
                         diffs.append('call() result: impl %r model %r' % (got, want))
     return diffs
@@ -587,6 +702,10 @@ def run_case(ctx, drv, cfg, nss, bursts, stats):
                 count_concurrent(ctx, cfg, burst, obs, stats)
             for m in burst['msgs']:
                 ctx.count('kind.' + m['kind'])
+                if m.get('gives_up'):
+                    ctx.count('overlap.calls_that_give_up_while_later_messages_to_the_same_peer_wait_for_their_ack')
+                if m.get('while_waiting') and m['cb']:
+                    ctx.count('overlap.callbacks_registered_while_a_call_that_gives_up_waits')
                 ctx.count('ack.%s' % bool(m['cb']))
                 ctx.count('data.' + shape(m['data']))
                 ctx.count('ret.' + shape(m['ret']))
@@ -727,7 +846,9 @@ def run(ctx):
         'distinct_nontrivial': len(stats['nontrivial']),
         'rule': 'one evaluation = one emit/send/call issued on a real Client/AsyncClient or Server/AsyncServer and '
                 'followed to the peer\'s handler, back to the callback / call() result, judged by the oracle and '
-                'against the model. non-trivial = distinct payload (sent or returned) with a byte string under a '
+                'against the model; in sequential bursts a call() may give up waiting (scripted wait primitive) while the '
+                'messages after it are sent with callbacks to the same peer: their acknowledgements must still arrive. '
+                'non-trivial = distinct payload (sent or returned) with a byte string under a '
                 'dict under a list, or a tuple of >= 2',
         'samples': stats['samples'], 'traces_validated_against_impl': stats['validated'],
         'frames_on_wire_compared_with_model': stats['frames'],
@@ -774,8 +895,10 @@ def replay(ctx, r):
             fails = oracle(b, obs)
             print('--- burst %s->peer (%d messages) on %s' % (b['side'], len(b['msgs']), cfg_name(cfg)))
             for m, s in zip(b['msgs'], obs['sent']):
-                print('  sent   %s(%r, %r, namespace=%r%s) -> %r; handler returns %r'
-                      % (m['kind'], m['ev'], m['data'], m['ns'], ', callback' if m['cb'] else '', s['res'], m['ret']))
+                print('  sent   %s(%r, %r, namespace=%r%s) -> %r; handler returns %r%s'
+                      % (m['kind'], m['ev'], m['data'], m['ns'], ', callback' if m['cb'] else '', s['res'], m['ret'],
+                         ' [its wait expires before the link moves]' if m.get('gives_up') else
+                         ' [sent while that call() waits]' if m.get('while_waiting') else ''))
             if b.get('deliver') == 'tasks':
                 print('  delivered concurrently (engine.io dispatch: a task per message / per handler), loop turns '
                       'between packets %r, waiting executor jobs served %s; receiving handlers: %r; %r'
